@@ -39,6 +39,12 @@ def corpus():
                 "vars": {"full": True, "brief": True}, "limit": 3, "filter": None})
     out.append({"text": "query Q($deep: Boolean!) { hero { name ... on T @include(if: $deep) { friends { friends { friends { name } } } } } }",
                 "calls": [{"deep": False}, {"deep": True}, {"deep": False}], "vars": {"deep": False}, "limit": 2, "filter": None})
+    # seed C19-f: the first of several same-key fields comes from a shared fragment and a deeper direct
+    # selection follows; a second consumer of the fragment is measured afterwards
+    out.append({"text": "query Deep { ...F a { b { c { d } } } } query Shallow { ...F } fragment F on T { a { b } }",
+                "vars": {}, "limit": 1, "filter": None})
+    out.append({"text": "query Q { ...F a { b { c { d } } } } fragment F on T { a { b } }",
+                "calls": [{}, {}], "vars": {}, "limit": 2, "filter": None})
     for text in ["{ a }", "{ a b c }", "query Q { ...F } fragment F on T { a { b { c } } }",
                  "{ a { b } a { b { c { d } } } }", "{ ... { a { b { c } } } }",
                  "{ x: a { b } x: a { c { d { a } } } }",
@@ -155,7 +161,11 @@ def run_impl(case):
     if case["filter"] is not None:
         kw["operation_name"] = case["filter"]
     rule = MaxDepthValidationRule(case["limit"], **kw)
+    before = ser.cdoc(doc)
     outs = [_one_call(rule, doc, v) for v in _calls(case)]
+    if ser.cdoc(doc) != before:
+        # measuring must not rewrite the document it is given (seed C19-f merged sub-selections in place)
+        outs[-1] = dict(outs[-1], mutated=True)
     if "calls" in case:
         return {"history": outs}
     return outs[0]
@@ -208,7 +218,10 @@ def classify(case, obs):
 
 
 def direct_checks(case, obs):
-    return [("raises-nothing: %s" % o.get("type"), None) for o in _outs(obs) if o.get("exc") == "other"]
+    out = [("raises-nothing: %s" % o.get("type"), None) for o in _outs(obs) if o.get("exc") == "other"]
+    if any(o.get("mutated") for o in _outs(obs)):
+        out.append(("input-document-left-unchanged", None))
+    return out
 
 
 def shrink(case, is_bad):
